@@ -582,12 +582,18 @@ func run(c *fw.Ctx) error {
 				entries = []string{"eval", "path"}
 				if !p.Full {
 					entries = []string{"eval", "eval"} // a session (library evaluated earlier): no file to give to EvalPath
+				} else if !p.ChanInLit {
+					// compiled first, executed with the context afterwards (the blocked operations are in declared
+					// functions and in main; literals compiled by Compile are the known finding of that entry point)
+					entries = []string{"eval", "path", "exec"}
 				}
 				if c.Quick() {
 					if (pi+int(c.Seed))%6 != 0 {
 						continue
 					}
-					entries = entries[pi%2 : pi%2+1]
+					// (pi/6: the sampled programs are 6 apart, their remainders modulo 2 or 3 would all be equal)
+					x := (pi / 6) % len(entries)
+					entries = entries[x : x+1]
 					ks = []int64{60 + rng.Int63n(60), 3 + rng.Int63n(30)}
 				} else {
 					ks = []int64{2, 9, 30, 70, 120, 4 + rng.Int63n(140)}
